@@ -152,6 +152,10 @@ func (server *SugarDB) VerifDump() VerifDumpResult {
 			v := verifValue(kd.Value)
 			if kd.ExpireAt != (time.Time{}) {
 				v.ExpireAt = kd.ExpireAt.UnixNano()
+				if v.ExpireAt <= 0 {
+					// 0 means "no deadline" in the dump; a deadline at or before the epoch is rendered as 1.
+					v.ExpireAt = 1
+				}
 			}
 			out[k] = v
 		}
